@@ -292,7 +292,8 @@ class C08(Check):
             'eternity, built with the real & | ~ operators; a driver applies a generated change history (several changes per '
             'time step incl. set-then-revert and changes spread over rounds of one step); 1-4 waiters start at generated '
             'points and may wait twice. non-trivial = an awaited expression has a connective and one of its atoms changes '
-            'after a waiter started; distinct by sha1.')
+            'after a waiter started; distinct by sha1. Also conditions over task.done evaluated repeatedly within one activation '
+            'around the cancellation of a task that has not started (the value is always the current one).')
     budgets = {'quick': dict(examples=2400, procs=4), 'thorough': dict(examples=200000, procs=16)}
     level_text = ('Independent evaluator over the harness-owned copy of all atom values: (1) at every resume the condition is '
                   'true at that moment and at least one other activation happened since the await began; (2) at the end of '
